@@ -80,6 +80,7 @@ func (w *pktWorld) addTss(hostC *pktChain, name string) *pktTss {
 		w.t.Fatalf("create tss client: %v", err)
 	}
 	hostC.kind[name] = "tss"
+	hostC.setTss(name, pktT)
 	w.op(fmt.Sprintf("client %s %s tss 0 0 - 0 0 0 %s", hxs(hostC.name), hxs(name), hxs(hostC.tssAddr())), "ok")
 	// a token bound to the TSS chain's base token
 	tc := hostC.tc
@@ -166,6 +167,8 @@ func (w *pktWorld) toggle(c *pktChain, name string, toTss bool) bool {
 		perr := w.proposal(c, content)
 		if perr == nil {
 			c.kind[name] = "tss"
+			c.tssEver[name] = nil // a new client: nobody is "retired" with respect to it
+			c.setTss(name, pktT)
 		}
 		w.clientOpObserve(c, "toggle", name, "tss", clienttypes.Height{}, nil, pt, 0, 0, c.tssAddr(), perr)
 		return perr == nil
@@ -199,6 +202,9 @@ func (w *pktWorld) upgrade(c *pktChain, name string, same bool) bool {
 			w.t.Fatal(err)
 		}
 		perr := w.proposal(c, content)
+		if perr == nil {
+			c.setTss(name, pktT)
+		}
 		w.clientOpObserve(c, "upgrade", name, "tss", clienttypes.Height{}, nil, pt, 0, 0, c.tssAddr(), perr)
 		return perr == nil
 	}
@@ -230,4 +236,52 @@ func (w *pktWorld) tssPacket(ts *pktTss, seq uint64, amount int64) *pktEvmPacket
 		TransferData: tdBz, CallData: []byte{}, CallbackAddress: common.Address{}.String(), FeeOption: 0}
 	bz, _ := p.ABIPack()
 	return &pktEvmPacket{bz: bz, p: p, slot: host.PacketCommitmentKey(p.SrcChain, p.DstChain, p.Sequence)}
+}
+
+func (c *pktChain) setTss(name string, acct int) {
+	c.tssCur[name] = acct
+	if c.tssEver[name] == nil {
+		c.tssEver[name] = map[int]bool{}
+	}
+	c.tssEver[name][acct] = true
+}
+
+// rotate delivers a MsgUpdateClient for the TSS client `name` of chain c that names account `to` as the new TSS address,
+// signed by account `signer` (accepted iff the signer is the current TSS address and a registered relayer for `name`).
+// wrongHeader: carry a Tendermint header instead (refused).
+func (w *pktWorld) rotate(c *pktChain, name string, to, signer int, tag string) bool {
+	hdr := &tsstypes.Header{TssAddress: c.accts[to].addr.String(), Pubkey: bytes.Repeat([]byte{byte(5 + to)}, 33),
+		PartPubkeys: [][]byte{bytes.Repeat([]byte{3}, 33), bytes.Repeat([]byte{4}, 33)}, Threshold: 2}
+	msg, err := clienttypes.NewMsgUpdateClient(name, hdr, c.accts[signer].addr)
+	if err != nil {
+		w.t.Fatal(err)
+	}
+	now := c.now()
+	_, derr := w.deliverMsgs(c, signer, msg)
+	ud, ub, ua := c.observe()
+	w.stepOracle(ub, ua, "")
+	if ud != "-" {
+		w.r.Find(Finding{Sig: "pkt:update-client-changed-packet-store", What: "MsgUpdateClient changed the packet stores",
+			Ops: append([]string{}, w.hist...), Obs: ud, Req: "-"})
+	}
+	res := "ok"
+	if derr != nil {
+		res = "err"
+	} else {
+		c.setTss(name, to) // own record: the address named by the last ACCEPTED update
+	}
+	stored := "none"
+	if cs, found := c.tc.App.XIBCKeeper.ClientKeeper.GetClientState(c.tc.GetContext(), name); found {
+		if t, isTss := cs.(*tsstypes.ClientState); isTss {
+			stored = hxs(t.TssAddress)
+		}
+	}
+	w.op(fmt.Sprintf("update %s %d %s 0 0 %s %s 1", hxs(c.name), now, hxs(name), hxs(c.accts[to].addr.String()), hxs(c.accts[signer].addr.String())),
+		res+" L=0-0 V="+stored)
+	w.r.Count("rotate." + tag + "." + res)
+	if derr == nil && stored != hxs(c.accts[to].addr.String()) {
+		w.r.Find(Finding{Sig: "C05:tss-rotation-accepted-not-stored", What: "an accepted MsgUpdateClient of a TSS client must leave the address it names as the client's TSS address",
+			Ops: append([]string{}, w.hist...), Obs: stored, Req: hxs(c.accts[to].addr.String())})
+	}
+	return derr == nil
 }
